@@ -39,7 +39,7 @@ Section Spec.
   Definition no_bs (a : str) : Prop := ~ In 92%N a.
   Definition queue_ok (m : meaning) (queue : list str) : Prop :=
     match m with
-    | Match _ (_ :: _ as sp) _ _ _ =>
+    | Match _ ((_ :: _) as sp) _ _ _ =>
         forall a, In a queue -> no_bs a /\ ~ (exists r, a = norm_prefix sp ++ 47%N :: r)
     | _ => True
     end.
